@@ -10,20 +10,91 @@ import Verif.Proofs.Store
 namespace Verif.Properties.C22
 open Verif.Model.Store Verif.Proofs.Store
 
-/-! ### the type tests: a small explicit preorder -/
+/-! ### the type tests: an explicit preorder (base table × optional depth) -/
 
-theorem subtype_refl (t : Ty) : subtype t t = true := by cases t <;> rfl
+theorem subtype_refl (t : Ty) : subtype t t = true :=
+  (subtype_iff t t).2 ⟨baseSub_refl _, .inr (Nat.le_refl _)⟩
 
 theorem subtype_trans (a b c : Ty) (h1 : subtype a b = true) (h2 : subtype b c = true) :
     subtype a c = true := by
-  cases a <;> cases b <;> first | (exact absurd h1 (by decide)) | (cases c <;> first | rfl | exact absurd h2 (by decide))
+  obtain ⟨hab, h1'⟩ := (subtype_iff a b).1 h1
+  obtain ⟨hbc, h2'⟩ := (subtype_iff b c).1 h2
+  refine (subtype_iff a c).2 ⟨baseSub_trans _ _ _ hab hbc, ?_⟩
+  rcases h2' with hc | hnk
+  · exact .inl hc
+  · rcases h1' with hb | hmn
+    · exact .inl (baseSub_top_left _ _ hbc hb)
+    · exact .inr (Nat.le_trans hmn hnk)
 
-theorem subtype_antisymm (a b : Ty) (h1 : subtype a b = true) (h2 : subtype b a = true) : a = b := by
-  cases a <;> cases b <;> first | rfl | exact absurd h1 (by decide) | exact absurd h2 (by decide)
+/-- Antisymmetric up to the optional layers on a top type: `AnyStruct`, `AnyStruct?`, `AnyStruct??`, …
+    are subtypes of each other (and likewise `AnyResource…`); all other types are ordered strictly. -/
+theorem subtype_antisymm (a b : Ty) (h1 : subtype a b = true) (h2 : subtype b a = true) :
+    a = b ∨ (a.base = b.base ∧ a.base.isTop = true) := by
+  obtain ⟨hab, h1'⟩ := (subtype_iff a b).1 h1
+  obtain ⟨hba, h2'⟩ := (subtype_iff b a).1 h2
+  have hbase : a.base = b.base := baseSub_antisymm _ _ hab hba
+  by_cases ht : a.base.isTop = true
+  · exact .inr ⟨hbase, ht⟩
+  · left
+    have hm : a.opt ≤ b.opt := by
+      rcases h1' with h | h
+      · rw [← hbase] at h; exact absurd h ht
+      · exact h
+    have hn : b.opt ≤ a.opt := by
+      rcases h2' with h | h
+      · exact absurd h ht
+      · exact h
+    cases a; cases b; simp_all; omega
 
-/-- struct- and resource-kinded types are never related: `copy<T: AnyStruct>` cannot return a resource -/
-theorem subtype_same_kind (a b : Ty) (h : subtype a b = true) : a.isRes = b.isRes := by
-  cases a <;> cases b <;> first | rfl | exact absurd h (by decide)
+/-- struct- and resource-kinded types are never related: `copy<T: AnyStruct>` cannot return a resource.
+    (`nil`, of dynamic type `Never?`, is the one value below both kinds.) -/
+theorem subtype_same_kind (a b : Ty) (h : subtype a b = true) (hn : a.base ≠ .never) : a.isRes = b.isRes :=
+  baseSub_same_kind _ _ ((subtype_iff a b).1 h).1 hn
+
+/-- The optional rules of the checker, which the closed form of `subtype` encodes: optionals are
+    covariant, `T <: U?` when `T <: U`, and `T? <: U` for a non-optional `U` only when `U` is the top
+    type of `T`'s kind. -/
+theorem subtype_optional_rules (t u : Ty) :
+    subtype t.some u.some = subtype t u ∧
+    (subtype t u = true → subtype t u.some = true) ∧
+    (u.opt = 0 → (subtype t.some u = true ↔ (u.base.isTop = true ∧ subtype t u = true))) := by
+  refine ⟨?_, ?_, ?_⟩
+  · simp [subtype, Ty.some]
+  · intro h
+    obtain ⟨hb, hd⟩ := (subtype_iff t u).1 h
+    exact (subtype_iff _ _).2 ⟨hb, hd.imp id (fun h => Nat.le_succ_of_le h)⟩
+  · intro hu
+    rw [subtype_iff, subtype_iff]
+    simp only [Ty.some, hu]
+    constructor
+    · rintro ⟨hb, ht | hd⟩
+      · exact ⟨ht, hb, .inl ht⟩
+      · omega
+    · rintro ⟨ht, hb, _⟩
+      exact ⟨hb, .inl ht⟩
+
+/-- The case the dynamic check must get right: a stored optional *resource* is not an `AnyStruct`
+    (nor an `AnyStruct?`), a stored optional struct is; both are below the top type of their own kind. -/
+theorem optional_resource_not_anystruct (v : Val) (hr : v.ty.isRes = true) (n : Nat) :
+    subtype (Val.some v).ty ⟨.anyStruct, n⟩ = false ∧ subtype (Val.some v).ty ⟨.anyResource, n⟩ = true := by
+  have hb : (Val.some v).ty.base = v.ty.base := rfl
+  generalize hbv : v.ty.base = bv at hb
+  have hr' : bv.isRes = true := by simpa [Ty.isRes, hbv] using hr
+  constructor
+  · simp only [subtype, hb]
+    cases bv <;> first | rfl | exact absurd hr' (by decide)
+  · simp only [subtype, hb]
+    cases bv <;> first | rfl | exact absurd hr' (by decide)
+
+/-- Known finding `borrow-stored-nil-as-anyresource`: what the machine requires on a stored `nil`.
+    Its dynamic type `Never?` is below `AnyResource` (as `subtype_trans` forces: `Never? <: AnyResource?
+    <: AnyResource`), so `check<@AnyResource>` is true and `borrow<&AnyResource>` yields a reference.  The
+    runtime agrees on `check` / `load` and deviates on `borrow` (type mismatch). -/
+theorem stored_nil_anyresource_witness (a p : Nat) :
+    subtype Val.nil.ty ⟨.anyResource, 1⟩ = true ∧ subtype ⟨.anyResource, 1⟩ ⟨.anyResource, 0⟩ = true ∧
+    step [((a, p), .nil)] (.check a p ⟨.anyResource, 0⟩) = .ok ([((a, p), .nil)], .bool true) ∧
+    step [((a, p), .nil)] (.borrow a p ⟨.anyResource, 0⟩) = .ok ([((a, p), .nil)], .ref .nil) := by
+  refine ⟨by decide, by decide, ?_, ?_⟩ <;> simp [step, getAt, subtype, baseSub, Base.isTop, Val.ty]
 
 /-! ### single operations on any store -/
 
@@ -200,10 +271,17 @@ theorem commit_boundary_unobservable (s s1 : Store) (tx1 tx2 : List Op) (l1 : Li
 /-! ### non-vacuity -/
 
 -- a value saved in one transaction is loaded (and removed) two transactions later; the aborted one is a no-op
-example : runHist [] [[.save 1 2 (.s2 4)], [.save 1 3 (.int 5), .load 1 2 .int], [.check 1 2 .i, .load 1 2 .i, .paths 1]] =
+example : runHist [] [[.save 1 2 (.s2 4)], [.save 1 3 (.int 5), .load 1 2 ⟨.int, 0⟩], [.check 1 2 ⟨.i, 0⟩, .load 1 2 ⟨.i, 0⟩, .paths 1]] =
     ([], [⟨none, [.saved]⟩, ⟨some .mismatch, [.saved]⟩, ⟨none, [.bool true, .val (.s2 4), .paths []]⟩]) := by decide
 example : Reachable [((1, 2), .int 5)] := ⟨[[.save 1 2 (.int 5)]], [], [], rfl⟩
 example : step [((1, 2), .int 5)] (.save 1 2 (.bool true)) = .error .overwrite := rfl
-example : subtype .s2 .i = true ∧ subtype .i .s2 = false ∧ subtype .r .anyStruct = false := by decide
+example : subtype ⟨.s2, 0⟩ ⟨.i, 0⟩ = true ∧ subtype ⟨.i, 0⟩ ⟨.s2, 0⟩ = false ∧ subtype ⟨.r, 0⟩ ⟨.anyStruct, 0⟩ = false := by decide
+-- a stored `@R?`: not an `AnyStruct`, so `load<AnyStruct>` aborts and the resource stays where it is
+example : runHist [] [[.save 1 2 (.some (.r 42))], [.check 1 2 ⟨.anyStruct, 0⟩, .load 1 2 ⟨.anyStruct, 0⟩], [.check 1 2 ⟨.r, 1⟩, .load 1 2 ⟨.anyResource, 0⟩]] =
+    ([], [⟨none, [.saved]⟩, ⟨some .mismatch, [.bool false]⟩, ⟨none, [.bool true, .val (.some (.r 42))]⟩]) := by decide
+-- the two directions that keep `subtype_antisymm` from being plain antisymmetry
+example : subtype ⟨.anyStruct, 1⟩ ⟨.anyStruct, 0⟩ = true ∧ subtype ⟨.anyStruct, 0⟩ ⟨.anyStruct, 1⟩ = true := by decide
+example : subtype (Val.some (.int 5)).ty ⟨.int, 0⟩ = false ∧ subtype (Val.int 5).ty ⟨.int, 2⟩ = true ∧
+    subtype Val.nil.ty ⟨.r, 1⟩ = true ∧ subtype Val.nil.ty ⟨.r, 0⟩ = false := by decide
 
 end Verif.Properties.C22
